@@ -27,7 +27,9 @@ import re
 import random
 import itertools
 
+import gevent
 from vf.sock import ScriptSocket, WouldBlock, segmentations, cut
+from vf.yieldsock_c17_c18 import YieldSocket, settle, interleavings
 from slimta.smtp.io import IO
 from slimta.smtp.reply import Reply
 from slimta.smtp import BadReply, ConnectionLost
@@ -63,6 +65,9 @@ RULE = ('three case kinds. dir: one (code, text) for every code 200..599 x every
         'build x 10 codes x every directed text + a seeded successor; seeded: random builds/codes 200..599/token '
         'texts, newline_first, flush) x whole/bytewise/every single cut/pairs around reply boundaries/seeded, '
         'reader mode fresh|client-noesc|reused|raw (all four on whole and bytewise, rotating on the rest). '
+        'conc: 2..3 IO objects, each reading its own 1..2 library-written replies in its own greenlet over a '
+        'socket whose empty read switches greenlets; pieces fed in every interleaving (<= 7 pieces, else seeded) '
+        '= evaluations; every reader must read what its bytes give alone. '
         'non-trivial & distinct = distinct (codes, texts) with a '
         'multi-line text, an ESC prefix whose class differs from the code, or a pipelined successor; and '
         'distinct malformed strings holding at least one complete line')
@@ -78,12 +83,14 @@ ASSUMPTIONS = ['ScriptSocket hands out exactly the scripted segments (recv(n) ne
                'plain Reply the documented default X.0.0 / class rewrite of reader_model() is the expected text',
                'the blank line written for newline_first is not a reply: the reader may skip it or reject it with '
                'BadReply, consuming exactly that line; the reply after it is judged as usual',
-               'bytes or None as message, a TAB as code/text separator: recorded, not judged']
+               'bytes or None as message, a TAB as code/text separator: recorded, not judged',
+               'concurrent readers: YieldSocket (vf/yieldsock_c17_c18.py) blocks the reading greenlet on a gevent '
+               'Event when nothing is ready, as a gevent socket does; the feed order is the schedule']
 REQUIRED_HITS = ['roundtrip-compared', 'successor-compared', 'esc-class-compared', 'malformed-judged',
                  'malformed-badreply-confirmed', 'malformed-pending-confirmed',
                  'caller-text-compared', 'build-path-compared', 'noesc-pair-compared', 'reused-reader-compared',
                  'raw-reader-compared', 'newline-first-judged', 'flush-judged', 'is-error-compared',
-                 'reply-recv-malformed-compared']
+                 'reply-recv-malformed-compared', 'conc-reader-compared', 'conc-readers-interleaved']
 SHARDS = {'quick': 16, 'thorough': 16}
 BUDGET = {'quick': 60, 'thorough': 900}
 EXHAUSTIVE = {'quick': False, 'thorough': False}
@@ -251,6 +258,9 @@ def gen_cases(tier, seed, shard, nshards):
             items.append([rnd.choice(BUILDS), str(rnd.randrange(200, 600)), t, rnd.randrange(5)])
         yield {'kind': 'ctor', 'items': items, 'trailer': rnd.choice(TRAILERS),
                'nl': rnd.choice([-1, -1, 0, 1, 2]), 'send': rnd.randrange(3), 'rs': rnd.randrange(1 << 30)}
+    for i, c in enumerate(gen_conc(tier, seed)):
+        if i % nshards == shard:
+            yield c
     # exhaustive byte-alphabet space last, shortest strings first: a budget cut only ever trims its tail
     for total in range(0, MAL_BOUND[tier] + 1):
         for pre in itertools.product(MAL_ALPHA, repeat=min(total, PREFIX)):
@@ -729,6 +739,109 @@ def run_odd(case, R):
         R.count('unjudged/%s->%s' % (label, out))
 
 
+# ------------------------------------------------------------------ concurrent readers
+NCONC = {'quick': 480, 'thorough': 8000}
+CONC_TEXTS = ['OK', 'two\r\nlines', 'x\r\n\r\ny', 'three\r\nline\r\ntext', '5.1.1 no', 'é 日本語\r\nü', '',
+              'a\r\nb\r\nc\r\nd', '2.1.5 Recipient\r\nok']
+
+
+def gen_conc(tier, seed):
+    rnd = random.Random('c17-conc-%d' % seed)
+    for _ in range(NCONC[tier]):
+        conns = []
+        for _ in range(rnd.choice([2, 2, 2, 3])):
+            reps = [[str(rnd.randrange(200, 600)), rnd.choice(CONC_TEXTS)] for _ in range(rnd.choice([1, 1, 2]))]
+            conns.append({'replies': reps, 'trailer': rnd.choice([b'', b'250-pa']), 'raw': rnd.random() < 0.4,
+                          'ncuts': rnd.randrange(1, 4)})
+        yield {'kind': 'conc', 'conns': conns, 'rs': rnd.randrange(1 << 30)}
+
+
+def _read_replies(io, n, raw, out):
+    try:
+        for _ in range(n):
+            if raw:
+                out.append(tuple(io.recv_reply()))
+            else:
+                r = Reply(command=b'RCPT')
+                r.recv(io)
+                out.append((r.code, r.message))
+    except Exception as ex:
+        out.append(('raised', type(ex).__name__))
+
+
+def run_readers(conns, sched):
+    """conns: [(pieces, nreplies, raw)]; sched: feed order (connection indexes). Every reader runs in its own
+    greenlet on its own IO over a YieldSocket. -> [(results, leftover)] or None if the harness did not settle."""
+    socks = [YieldSocket() for _ in conns]
+    ios = [IO(s, address=('h', 1)) for s in socks]
+    outs = [[] for _ in conns]
+    glets = [gevent.spawn(_read_replies, ios[i], c[1], c[2], outs[i]) for i, c in enumerate(conns)]
+    ok = all(settle(socks[i], glets[i]) for i in range(len(conns)))
+    pos = [0] * len(conns)
+    inter = False
+    for i in sched:
+        if not ok:
+            break
+        if any(j != i and socks[j].waiting and socks[j].consumed for j in range(len(conns))):
+            inter = True      # another reader is parked in the middle of its input while this one moves
+        socks[i].feed(conns[i][0][pos[i]])
+        pos[i] += 1
+        ok = settle(socks[i], glets[i])
+    if not ok or not all(g.dead for g in glets):
+        # a reader still waiting after all its bytes were fed: report what it has, it is judged as incomplete
+        gevent.killall(glets, block=False)
+        if not ok:
+            return None
+    return [(outs[i], ios[i].recv_buffer + socks[i].unread()) for i in range(len(conns))], inter
+
+
+def run_conc(case, R):
+    rnd = random.Random(case['rs'])
+    conns, exps = [], []
+    for c in case['conns']:
+        replies = [tuple(x) for x in c['replies']]
+        wire, sents, lens = write_wire(replies, 0)
+        data = wire + c['trailer']
+        cuts = sorted(rnd.sample(range(1, len(data)), min(c['ncuts'], len(data) - 1)))
+        mode = 'raw' if c['raw'] else 'fresh'
+        conns.append((cut(data, cuts), len(replies), c['raw']))
+        exps.append(([(code, reader_model(mode, code, norm(s))) for (code, _), s in zip(replies, sents)], c['trailer']))
+    counts = [len(c[0]) for c in conns]
+    scheds = list(interleavings(counts)) if sum(counts) <= 7 else []
+    if not scheds or len(scheds) > 30:
+        scheds = scheds and rnd.sample(scheds, 30)
+        for _ in range(0 if scheds else 8):
+            s = [i for i, n in enumerate(counts) for _ in range(n)]
+            rnd.shuffle(s)
+            scheds.append(s)
+    solo = []
+    for c in conns:
+        res = run_readers([c], [0] * len(c[0]))
+        solo.append(res[0][0] if res else None)
+    R.nontrivial(('conc', case['conns']))
+    for sched in scheds:
+        R.eval()
+        res = run_readers(conns, sched)
+        if res is None:
+            R.inconclusive('concurrency harness: a reader neither blocked in a read nor finished')
+            continue
+        results, inter = res
+        R.observe('conc-schedule', (tuple(counts), tuple(sched)))
+        if inter:
+            R.hit('conc-readers-interleaved')
+        for i, (got, exp) in enumerate(zip(results, exps)):
+            R.hit('conc-reader-compared')
+            if got == (exp[0], exp[1]):
+                continue
+            clause = ('raises-%s' % got[0][-1][1] if got[0] and got[0][-1][0] == 'raised' else
+                      'reply-differs' if got[0] != exp[0] else 'successor-damaged')
+            mech = ('concurrent-readers/%s' % clause) if solo[i] == (exp[0], exp[1]) else 'single-reader/%s' % clause
+            R.violation(mech, 'reader %d of %d read %r, its bytes encode %r (leftover %r)'
+                        % (i, len(conns), got[0], exp[0], got[1]),
+                        {'connections': case['conns'], 'pieces': [c[0] for c in conns], 'feed_order': sched,
+                         'reader': i, 'got': got, 'expected': exp, 'alone': solo[i]})
+
+
 # ------------------------------------------------------------------ malformed space
 def drive(s, segs, eof, ncalls):
     """Call the real IO.recv_reply until it stops returning replies (at most ncalls times: a parser that does
@@ -939,6 +1052,8 @@ def run_case(case, R):
         run_unjudged(case, R)
     elif kind == 'ctor':
         run_ctor(case, R)
+    elif kind == 'conc':
+        run_conc(case, R)
     elif kind == 'odd':
         run_odd(case, R)
     else:
